@@ -338,6 +338,14 @@ def gen_overflow(rng):
                 b.ops.append({"op": rng.choice(["write", "movein"]), "name": b.name(0), "cid": b.content(valid=True)})
             else:
                 b.ops.append({"op": "rename", "from": victim, "to": b.name(0)})
+    if rng.random() < 0.45:
+        # ... and the directory itself goes away while the overflow is being digested (its DELETE_SELF can arrive in the same
+        # batch as the overflow marker), then comes back with other content
+        b.ops.append({"op": "rmdir"})
+        b.pace(0.2, 0.0, 0.4)
+        b.ops.append({"op": "mkdir"})
+        for _ in range(rng.randint(1, 3)):
+            b.ops.append({"op": rng.choice(["write", "movein"]), "name": b.name(0), "cid": b.content(valid=True)})
     b.ops += [{"op": "wait"}, {"op": "tick"}, {"op": "us", "n": 100000}, {"op": "wait"}, {"op": "tick"}]
     s = b.scenario()
     s["yield_us"] = 0
@@ -613,7 +621,7 @@ FAMILIES = {"rescan-race": gen_rescan_race, "startup": gen_startup, "realplugin"
 def gen(rng, tier):
     n = {"quick": 2, "thorough": 50, "search": 3}[tier]
     plan = [("startup", 60), ("churn", 130), ("par", 130), ("rewrite-invalid", 60), ("badnum", 30), ("recreate", 90),
-            ("rename", 50), ("partial", 40), ("nodir", 30), ("long", 12), ("realplugin", 40), ("reload-race", 40), ("same-content", 90), ("rescan-race", 150), ("overflow", 3)]
+            ("rename", 50), ("partial", 40), ("nodir", 30), ("long", 12), ("realplugin", 40), ("reload-race", 40), ("same-content", 90), ("rescan-race", 150), ("overflow", 6)]
     if tier == "search":
         plan = [("churn", 100), ("par", 100), ("rewrite-invalid", 80), ("recreate", 80), ("badnum", 40), ("startup", 40),
                 ("same-content", 80), ("rescan-race", 150), ("overflow", 10)]
